@@ -537,7 +537,9 @@ def transpose(a):
     if a.ndim < 2:
         return a
     ax = tuple(reversed(a.axes))
-    return Arr(ax, lambda idx, a=a, f=a.snapshot_fn(): f(tuple(reversed(idx))), a.kind, term=_term_T(a))
+    out = Arr(ax, lambda idx, a=a, f=a.snapshot_fn(): f(tuple(reversed(idx))), a.kind, term=_term_T(a))
+    out.meta["view_of"] = a
+    return out
 
 
 def _term_T(a):
@@ -1065,6 +1067,10 @@ def getitem(a, key):
     out = Arr(tuple(res_axes), fn, a.kind, term=term)
     if out.ndim == 0:
         return out.cell(())
+    if not fancy:
+        # basic indexing returns a VIEW in NumPy: the model builds a separate value, so an in-place write through it (x /= .., x[i] = ..)
+        # would not reach the base - such writes are refused (see interp.s_AugAssign / setitem) rather than modelled wrongly
+        out.meta["view_of"] = a
     if a.vecfn is not None and isinstance(key[-1], slice) and key[-1].start is None and key[-1].stop is None \
             and key[-1].step is None and not any(k is None for k in key):
         av = a.vecfn
@@ -1119,6 +1125,8 @@ def setitem(a, key, val):
     """a[key] = val (in place)."""
     if not isinstance(a, Arr):
         raise Unsupported("subscript store on a non-array")
+    if a.meta.get("view_of") is not None:
+        raise Unsupported("store into a view of another array (basic slice / transpose): the write-through to the base is not modelled")
     if not isinstance(key, tuple):
         key = (key,)
     c = cur()
